@@ -4,6 +4,8 @@ import (
 	"fmt"
 	"hash/fnv"
 	"math/rand"
+	"os"
+	"strings"
 	"sync"
 	"sync/atomic"
 	"time"
@@ -129,6 +131,8 @@ func RunWorkload(seed int64, cfg WorkCfg, onPhase func(string)) *History {
 	failTable.Store("")
 	var failLeft int32
 	var slowLeft int32
+	var poison atomic.Value // string: line prefix of the poisoned row
+	poison.Store("")
 	led.SetScript(func(table string, nth int, blk *Block) Outcome {
 		switch mode.Load().(string) {
 		case "random":
@@ -149,6 +153,17 @@ func RunWorkload(seed int64, cfg WorkCfg, onPhase func(string)) *History {
 		case "fail-n":
 			if (table == failTable.Load().(string) || table == failTable.Load().(string)+"_dist") && atomic.AddInt32(&failLeft, -1) >= 0 {
 				return Err
+			}
+		case "fail-poison":
+			// every INSERT that carries the poisoned row fails, however often it is retried; all others succeed
+			if pz, _ := poison.Load().(string); pz != "" && strings.HasPrefix(table, "samples") {
+				for _, row := range blk.Rows {
+					for _, cell := range row {
+						if sv, ok := cell.(string); ok && strings.HasPrefix(sv, pz) {
+							return Err
+						}
+					}
+				}
 			}
 		case "slow-n":
 			if (table == failTable.Load().(string) || table == failTable.Load().(string)+"_dist") && atomic.AddInt32(&slowLeft, -1) >= 0 {
@@ -274,6 +289,35 @@ func RunWorkload(seed int64, cfg WorkCfg, onPhase func(string)) *History {
 			}
 			wg.Wait()
 			mode.Store("ok")
+		}
+	}
+	if cfg.Targeted {
+		// a body of several MiB (one parser portion per stream, four or five of them): the INSERTs carrying a line of
+		// its first stream fail for good, those of the later portions succeed. Part of the body's rows is then in no successful INSERT.
+		if onPhase != nil {
+			onPhase("poisoned-first-portion")
+		}
+		r := rand.New(rand.NewSource(int64(h64(fmt.Sprintf("%d/%s/poison", seed, cfg.Stream)) >> 1)))
+		id := fmt.Sprintf("z%d", atomic.AddInt64(&itemSeq, 1))
+		proto := []string{"loki-json-values", "loki-json-entries"}[r.Intn(2)] // decoded while the body is still arriving
+		lc := gen.NewLogCase(r, gen.LogOpts{ID: id, Proto: proto, Streams: 4 + r.Intn(2), MaxEntries: 3, BaseNs: int64(1700000000) * 1e9, Huge: true})
+		it := &Item{Phase: "poisoned-first-portion", Kind: "logs", Req: gen.Render(r, proto, lc)}
+		// a slow uplink: the portions reach the insert services several flush intervals apart, so the later ones
+		// are in INSERTs of their own
+		it.Req.SlowUploadMs = int(cfg.Writer.DBTimer*1000*4) + 40
+		poison.Store("L[" + id + "-0-") // any line of the first stream
+		mode.Store("fail-poison")
+		nb := len(led.Snapshot())
+		send(0, it)
+		mode.Store("ok")
+		poison.Store("")
+		if dbg := os.Getenv("CHW_DEBUG"); dbg != "" {
+			f, _ := os.OpenFile(dbg, os.O_APPEND|os.O_CREATE|os.O_WRONLY, 0644)
+			fmt.Fprintf(f, "poison phase cfg=%+v proto=%s body=%d status=%d err=%q\n", cfg.Writer, it.Req.Proto, len(it.Req.Body), it.Rec.Status, it.Rec.Err)
+			for _, b := range led.Snapshot()[nb:] {
+				fmt.Fprintf(f, "  blk %s rows=%d outcome=%s call=%d ret=%d\n", b.Table, len(b.Rows), b.Outcome, b.CallT, b.RetT)
+			}
+			f.Close()
 		}
 	}
 	if cfg.Refuse {
